@@ -50,6 +50,10 @@ def specs():
             E("ext_grid", j=0), E("pipe", f=0, to=1, sections=2, zeta=0.3), E("valve", j=1, el=2, et="ju", zeta=0.8),
             E("heat_exchanger", f=2, to=3, zeta=0.5) if fluid == "water" else E("pipe", f=2, to=3),
             E("sink", j=3), E("sink", j=2)]})
+        # pipes with different numbers of sections, pipe labels not ascending in table order
+        S.append({"name": "%s_sections" % fluid, "fluid": fluid, "nj": 4, "jh": [0, 4, 2, 5], "elems": [
+            E("ext_grid", j=0), E("pipe", f=0, to=1, sections=3, index=2), E("pipe", f=1, to=2, sections=1, index=0, zeta=0.2),
+            E("pipe", f=3, to=2, sections=2, index=1), E("sink", j=3), E("sink", j=1)]})
     return S
 
 
@@ -140,6 +144,23 @@ def obligations(st, names, job):
         res = net["res_" + tbl]
         for ix in net[tbl].index:
             if tbl == "pipe" and int(net.pipe.at[ix, "sections"]) != 1:
+                # multi-section pipe: the reported friction factor, Reynolds number and (liquids) mean velocity are the
+                # means of the section values of the system
+                nsec = int(net.pipe.at[ix, "sections"])
+                secs = ["pipe:%s:%d" % (ix, k) for k in range(nsec)]
+                if any(b_ not in st.brow for b_ in secs) or is_nan(res.at[ix, "mdot_from_kg_per_s"]):
+                    continue
+                lam_m = sum(_t(st.bpit[st.brow[b_], LAMBDA]) for b_ in secs) / nsec
+                re_m = sum(_t(st.bpit[st.brow[b_], RE]) for b_ in secs) / nsec
+                obs.append({"label": "pipe %s: reported lambda / Re are the section means of the system" % ix,
+                            "fp": "C02/reported/lambda",
+                            "goal": z3.And(_t(res.at[ix, "lambda"]) == lam_m, _t(res.at[ix, "reynolds"]) == re_m)})
+                if not is_gas:
+                    d = _t(net.pipe.at[ix, "inner_diameter_mm"]) / 1000
+                    area = d * d * pi_ / 4
+                    v_m = sum(_t(st.m[b_]) / ((rho_f(_t(st.T[st.fn[b_]])) + rho_f(_t(st.Tout[b_]))) / 2 * area) for b_ in secs) / nsec
+                    obs.append({"label": "pipe %s: v_mean = mean of m / (rho A) over the sections" % ix, "fp": "C02/reported/v_mean",
+                                "goal": _t(res.at[ix, "v_mean_m_per_s"]) == v_m})
                 continue
             b = "%s:%s:0" % (tbl, ix)
             if b not in st.brow or is_nan(res.at[ix, "mdot_from_kg_per_s"]):
